@@ -309,6 +309,12 @@ def step (line : String) : String :=
       pure (showRat (Numeric.chPinned T K d memF (matFn means) (matFn rows)) ++ " "
             ++ showRat (Numeric.chSpec T K d memF (matFn means) (matFn rows)) ++ " "
             ++ showRat B0 ++ " " ++ showRat B1 ++ " " ++ showRat Wd)
+  | ["admmloop", maxIter, stops] => opt do
+      -- scripted stopping rule: `stops[k]` is the rule's verdict after sweep k+1
+      let m ← parseNat? maxIter; let st ← parseNats? stops
+      let r := MainLoop.admmRun (fun s : MainLoop.Admm Nat => ⟨s.x + 1, s.x + 1, s.u⟩)
+        (fun s' _ => st.getD (s'.x - 1) 0 == 1) (fun s _ => s) m 0
+      pure s!"{r.1} {r.2}"
   -- ---------------------------------------------------------------- C08
   | ["repop", K, m, spreads, order, recorded, labels] => opt do
       let K ← parseNat? K; let m ← parseNat? m
